@@ -31,6 +31,8 @@ def run(rep):
     dtchecks.forward_replay(rep, fnd, tab, res2.records, "C03")
     dtchecks.numeric_forward(rep, fnd, "C03", rep.tier)
     stagetrace.validate_dtcwt(rep, "C03", rep.tier, "DTCWTForward")
+    from .. import scalechecks
+    scalechecks.dtcwt(rep, "C03", rep.tier, "forward")          # large inputs (size thresholds)
     if rep.tier == "thorough":       # the DTCWT test file is slow under the recorder: thorough tier only
         suitetrace.validate_suite(rep, "C03", "DTCWTForward")
     rep.assumptions += ["polarity premise sum(h0a*h0b) > 0 > sum(h1a*h1b): identity of the shipped tables (C18)",
